@@ -25,7 +25,14 @@ use std::sync::atomic::{AtomicUsize, Ordering};
 pub fn module() -> PropModule {
     // `Check_C14.run` evaluates the variant named by `Check_C14.tree_variant`; for trying the
     // repair patch without editing the development: VERIF_C14_VARIANT=fixed
-    let runner = if std::env::var("VERIF_C14_VARIANT").map(|v| v == "fixed").unwrap_or(false) { "Check_C14.run_fixed" } else { "Check_C14.run" };
+    // VERIF_C14_DEF=fixed: the same for go-to-definition after fix-c14-definition-uri.patch (`Check_C14.def_variant`)
+    let runner = if std::env::var("VERIF_C14_VARIANT").map(|v| v == "fixed").unwrap_or(false) {
+        "Check_C14.run_fixed"
+    } else if std::env::var("VERIF_C14_DEF").map(|v| v == "fixed").unwrap_or(false) {
+        "Check_C14.run_def_fixed"
+    } else {
+        "Check_C14.run"
+    };
     PropModule { coq_module: "Check_C14", runner, generate, execute, label }
 }
 
@@ -120,7 +127,204 @@ fn gkv(kv: &[(String, String)]) -> String {
     glist(&kv.iter().map(|(k, t)| gpair(&gstr(k), &gstr(t))).collect::<Vec<_>>())
 }
 
+/// the destination of a Markdown link that the parser reads back as exactly `url`: as it is when it
+/// is made of unreserved characters, else in angle brackets with `\`, `<`, `>`, `&` escaped
+fn md_destination(url: &str) -> String {
+    if !url.is_empty() && url.bytes().all(|b| b.is_ascii_alphanumeric() || matches!(b, b'-' | b'.' | b'_' | b'~' | b'/' | b':' | b'@')) {
+        return url.to_string();
+    }
+    let mut out = String::from("<");
+    for c in url.chars() {
+        if matches!(c, '\\' | '<' | '>' | '&') {
+            out.push('\\');
+        }
+        out.push(c);
+    }
+    out.push('>');
+    out
+}
+
+/// the text of a note file of a link case: a title, then one paragraph per link (on line 2 + 2*j)
+fn links_note_text(i: usize, links: &[(usize, String, bool)], edited: bool) -> String {
+    let mut text = format!("# T{}\n", i);
+    for (j, (_, url, inline)) in links.iter().filter(|(from, _, _)| *from == i).enumerate() {
+        if *inline {
+            text.push_str(&format!("\nsee [L{}]({}) here\n", j, md_destination(url)));
+        } else {
+            text.push_str(&format!("\n[L{}]({})\n", j, md_destination(url)));
+        }
+    }
+    if edited {
+        text.push_str("\nedited\n");
+    }
+    text
+}
+
+fn def_obs(server: &Server, uri: &Url, line: u32, character: u32) -> String {
+    let r = catch_unwind(AssertUnwindSafe(|| {
+        server.handle_goto_definition(GotoDefinitionParams {
+            text_document_position_params: TextDocumentPositionParams {
+                text_document: TextDocumentIdentifier { uri: uri.clone() },
+                position: Position::new(line, character),
+            },
+            work_done_progress_params: Default::default(),
+            partial_result_params: Default::default(),
+        })
+    }));
+    match r {
+        Err(_) => "Check_C14.DPanic".to_string(),
+        Ok(GotoDefinitionResponse::Scalar(l)) => gapp("Check_C14.DSome", &[gstr(&l.uri.to_string())]),
+        Ok(GotoDefinitionResponse::Array(a)) => match a.first() {
+            Some(l) => gapp("Check_C14.DSome", &[gstr(&l.uri.to_string())]),
+            None => "Check_C14.DNone".to_string(),
+        },
+        Ok(GotoDefinitionResponse::Link(a)) => match a.first() {
+            Some(l) => gapp("Check_C14.DSome", &[gstr(&l.target_uri.to_string())]),
+            None => "Check_C14.DNone".to_string(),
+        },
+    }
+}
+
+fn refs_obs(server: &Server, uri: &Url) -> String {
+    let r = catch_unwind(AssertUnwindSafe(|| {
+        server.handle_references(ReferenceParams {
+            text_document_position: TextDocumentPositionParams { text_document: TextDocumentIdentifier { uri: uri.clone() }, position: Position::new(0, 0) },
+            work_done_progress_params: Default::default(),
+            partial_result_params: Default::default(),
+            context: ReferenceContext { include_declaration: false },
+        })
+    }));
+    gopt(r.ok().map(|ls| glist(&ls.iter().map(|l| gstr(&l.uri.to_string())).collect::<Vec<_>>())))
+}
+
+/// link cases (`"links"` in the input): a library of note files that link to each other, written
+/// to disk, loaded by the server itself (`state` comes from the real loader on the same path),
+/// then `textDocument/definition` on every link and `textDocument/references` of every file's
+/// URI, before and after a didChange for every file
+fn execute_links(v: &Value) -> String {
+    let base_name = v["base"].as_str().unwrap_or("lib");
+    let slash = v["slash"].as_bool().unwrap_or(false);
+    let files: Vec<Vec<String>> = v["files"].as_array().map(|a| a.iter().map(comps).collect()).unwrap_or_default();
+    let links: Vec<(usize, String, bool)> = v["links"]
+        .as_array()
+        .map(|a| {
+            a.iter()
+                .map(|l| (l["from"].as_u64().unwrap_or(0) as usize, l["url"].as_str().unwrap_or("").to_string(), l["inline"].as_bool().unwrap_or(false)))
+                .collect()
+        })
+        .unwrap_or_default();
+    let base_ok = !base_name.is_empty() && base_name.split('/').all(legal_component);
+    let files_ok = !files.is_empty() && files.iter().all(|n| !n.is_empty() && n.iter().all(|c| legal_component(c)));
+    // a url the Markdown destination cannot carry (line break) or that does not name a linking file
+    let links_ok = links.iter().all(|(from, url, _)| *from < files.len() && !url.is_empty() && !url.contains('\n') && !url.contains('\r') && !url.contains('\0'));
+    let id = COUNTER.fetch_add(1, Ordering::SeqCst);
+    let root = scratch_root().join(format!("{}", id));
+    if !(base_ok && files_ok && links_ok) {
+        return gapp("Check_C14.Skip", &[]);
+    }
+    let base_dir = root.join(base_name);
+    let mut base_str = base_dir.to_string_lossy().to_string();
+    if slash {
+        base_str.push('/');
+    }
+    let _ = std::fs::remove_dir_all(&root);
+    let path_of = |n: &Vec<String>, from: &str| {
+        let mut p = PathBuf::from(from);
+        for d in &n[..n.len() - 1] {
+            p.push(d);
+        }
+        p.push(format!("{}.md", n[n.len() - 1]));
+        p
+    };
+    let mut all_written = true;
+    for (i, n) in files.iter().enumerate() {
+        let p = path_of(n, &base_dir.to_string_lossy());
+        let ok = p.parent().map(|d| std::fs::create_dir_all(d).is_ok()).unwrap_or(false) && !p.exists() && std::fs::write(&p, links_note_text(i, &links, false)).is_ok();
+        all_written &= ok;
+    }
+    if !all_written {
+        let _ = std::fs::remove_dir_all(&root);
+        return gapp("Check_C14.Skip", &[]);
+    }
+    let state = catch_unwind(AssertUnwindSafe(|| liwe::fs::new_for_path(&PathBuf::from(&base_str))));
+    let (loaded, state) = match state {
+        Ok(s) => {
+            let mut k: Vec<String> = s.keys().cloned().collect();
+            k.sort();
+            (Some(k), s)
+        }
+        Err(_) => (None, Default::default()),
+    };
+    let server = catch_unwind(AssertUnwindSafe(|| {
+        Server::new(ServerConfig { base_path: base_str.clone(), state, sequential_ids: Some(true), configuration: Configuration::default(), lsp_client: LspClient::Unknown })
+    }));
+    let mut server = match server {
+        Ok(s) => s,
+        Err(_) => {
+            let _ = std::fs::remove_dir_all(&root);
+            return gapp("Check_C14.Crash", &[gstr(&base_str)]);
+        }
+    };
+    let uris: Vec<Option<Url>> = files.iter().map(|n| Url::from_file_path(path_of(n, &base_str)).ok()).collect();
+    // line and column of every link in its file
+    let mut seen = vec![0u32; files.len()];
+    let places: Vec<(u32, u32)> = links
+        .iter()
+        .map(|(from, _, inline)| {
+            let j = seen[*from];
+            seen[*from] += 1;
+            (2 + 2 * j, if *inline { 5 } else { 1 })
+        })
+        .collect();
+    let ask_defs = |server: &Server| -> Vec<String> {
+        links
+            .iter()
+            .zip(places.iter())
+            .map(|((from, _, _), (line, col))| match &uris[*from] {
+                Some(u) => def_obs(server, u, *line, *col),
+                None => "Check_C14.DNone".to_string(),
+            })
+            .collect()
+    };
+    let ask_refs = |server: &Server| -> Vec<String> { uris.iter().map(|u| match u { Some(u) => refs_obs(server, u), None => "None".to_string() }).collect() };
+    let defs1 = ask_defs(&server);
+    let refs1 = ask_refs(&server);
+    for (i, u) in uris.iter().enumerate() {
+        if let Some(u) = u {
+            let text = links_note_text(i, &links, true);
+            let _ = catch_unwind(AssertUnwindSafe(|| {
+                server.handle_did_change_text_document(DidChangeTextDocumentParams {
+                    text_document: VersionedTextDocumentIdentifier { uri: u.clone(), version: 1 },
+                    content_changes: vec![TextDocumentContentChangeEvent { range: None, range_length: None, text }],
+                })
+            }));
+        }
+    }
+    let defs2 = ask_defs(&server);
+    let refs2 = ask_refs(&server);
+    let _ = std::fs::remove_dir_all(&root);
+    let file_terms: Vec<String> = files
+        .iter()
+        .enumerate()
+        .map(|(i, n)| {
+            gapp(
+                "Check_C14.LFile",
+                &[glist(&n.iter().map(|c| gstr(c)).collect::<Vec<_>>()), gopt(uris[i].as_ref().map(|u| gstr(&u.to_string()))), refs1[i].clone(), refs2[i].clone()],
+            )
+        })
+        .collect();
+    let link_terms: Vec<String> = links
+        .iter()
+        .enumerate()
+        .map(|(j, (from, url, inline))| gapp("Check_C14.Link", &[format!("{}%nat", from), gstr(url), gbool(*inline), defs1[j].clone(), defs2[j].clone()]))
+        .collect();
+    gapp("Check_C14.Links", &[gstr(&base_str), glist(&file_terms), glist(&link_terms), gopt(loaded.map(|k| glist(&k.iter().map(|k| gstr(k)).collect::<Vec<_>>())))])
+}
+
 pub fn execute(v: &Value) -> String {
+    if v.get("links").is_some() {
+        return execute_links(v);
+    }
     let base_name = v["base"].as_str().unwrap_or("lib");
     let slash = v["slash"].as_bool().unwrap_or(false);
     let notes: Vec<Vec<String>> = v["notes"].as_array().map(|a| a.iter().map(comps).collect()).unwrap_or_default();
@@ -347,7 +551,97 @@ pub fn generate(rng: &mut Rng, thorough: bool) -> Vec<Value> {
     for s in SAMPLES {
         out.push(json!({"base": "lib", "slash": false, "notes": [[s]], "extra": [format!("{{S}}{}.md", strict_encode(s))], "kind": "sample+uris"}));
     }
+    // libraries of notes at depth 0..3 that link to each other
+    let n = if thorough { 5000 } else { 420 };
+    for i in 0..n {
+        out.push(gen_links(rng, i % 4 == 3, i % 5 == 4));
+    }
     out
+}
+
+/// the url that names the file `to` from the directory of the file `from` (both dirs ++ [stem])
+fn rel_url(from: &[String], to: &[String]) -> String {
+    let fd = &from[..from.len() - 1];
+    let mut common = 0;
+    while common < fd.len() && common + 1 < to.len() && fd[common] == to[common] {
+        common += 1;
+    }
+    let mut parts: Vec<String> = vec![];
+    for _ in common..fd.len() {
+        parts.push("..".to_string());
+    }
+    parts.extend(to[common..].iter().cloned());
+    parts.join("/")
+}
+
+/// a link case: 3-7 note files in a chain of directories up to 3 deep (the same few stems in
+/// several directories, so that a link resolved against the wrong directory finds another note or
+/// none), 2-9 links: to a file (the shortest url, `./`, `.md`, the long way round through the
+/// parent directory), to nothing (missing sibling, out of the library), to the outside (http, mailto)
+fn gen_links(rng: &mut Rng, hostile: bool, with_inline: bool) -> Value {
+    let usable = |s: &&str| !s.contains('\n');
+    let pool: Vec<&str> = if hostile { SAMPLES.iter().cloned().filter(|s| usable(&s)).collect() } else { SAMPLES[..7].to_vec() };
+    let seg = |rng: &mut Rng| rng.pick(&pool).to_string();
+    // directories: a chain root / d1 / d1/d2 / d1/d2/d3 and a side branch
+    let d1 = seg(rng);
+    let d2 = seg(rng);
+    let d3 = seg(rng);
+    let e = seg(rng);
+    let mut dirs: Vec<Vec<String>> = vec![vec![], vec![d1.clone()], vec![d1.clone(), d2.clone()], vec![d1.clone(), d2.clone(), d3.clone()]];
+    if e != d2 {
+        dirs.push(vec![d1.clone(), e.clone()]);
+    }
+    let stems: Vec<String> = (0..3).map(|_| seg(rng)).collect();
+    let mut files: Vec<Vec<String>> = vec![];
+    let k = rng.range(3, 7);
+    for j in 0..k {
+        // the first two files are at least two directories deep
+        let d = if j < 2 { rng.pick(&dirs[2..]).clone() } else { rng.pick(&dirs).clone() };
+        let mut f = d;
+        f.push(rng.pick(&stems).clone());
+        // no file twice; no file named like a directory of the chain + `.md` is fine (a/b.md next to a/b/)
+        if !files.contains(&f) {
+            files.push(f);
+        }
+    }
+    let nl = rng.range(2, 9);
+    let mut links = vec![];
+    for _ in 0..nl {
+        let from = if rng.chance(2, 3) { rng.below(files.len().min(2)) } else { rng.below(files.len()) };
+        let inline = with_inline && rng.chance(1, 2);
+        let roll = rng.below(10);
+        let url = if roll < 7 {
+            let to = rng.pick(&files).clone();
+            let mut u = rel_url(&files[from], &to);
+            let up = u.starts_with("../");
+            match rng.below(6) {
+                0 if !up => u = format!("./{}", u),
+                1 if files[from].len() > 1 && !up => u = format!("../{}/{}", files[from][files[from].len() - 2], u),
+                2 => u.push_str(".md"),
+                _ => {}
+            }
+            // a stem that ends in `.md` needs the extension spelled out (one `.md` is taken off a url)
+            if to[to.len() - 1].ends_with(".md") && !u.ends_with(".md.md") {
+                u.push_str(".md");
+            }
+            u
+        } else if roll == 7 {
+            // the same stem in the wrong directory, a missing note, a way out of the library
+            match rng.below(3) {
+                0 => format!("../{}", rng.pick(&stems)),
+                1 => "nope".to_string(),
+                _ => "../../../../up".to_string(),
+            }
+        } else if roll == 8 {
+            rng.pick(&stems).clone()
+        } else {
+            rng.pick(&["https://example.com/a", "http://x.y/z.md", "mailto:a@b.c", "HTTPS://EXAMPLE.COM"]).to_string()
+        };
+        links.push(json!({"from": from, "url": url, "inline": inline}));
+    }
+    let base = if hostile && rng.chance(1, 3) { *rng.pick(BASES) } else { "lib" };
+    let kind = format!("links{}{}", if hostile { "-hostile" } else { "" }, if with_inline { "+inline" } else { "" });
+    json!({"base": base, "slash": hostile && rng.chance(1, 8), "files": files, "links": links, "kind": kind})
 }
 
 /// how VS Code spells a path in a URI: everything but unreserved characters and `/` is escaped
